@@ -285,8 +285,10 @@ theorem code_structure_as_modelled :
     F3.Gen.SkelStore.skelStorePut = F3.SkelTie.SkelStore.skelStorePutExpected ∧
     F3.Gen.SkelStore.skelStoreGetRange = F3.SkelTie.SkelStore.skelStoreGetRangeExpected ∧
     F3.Gen.SkelStore.skelStoreOpen = F3.SkelTie.SkelStore.skelStoreOpenExpected ∧
-    F3.Gen.SkelStore.skelExportSnapshot = F3.SkelTie.SkelStore.skelExportSnapshotExpected :=
-  ⟨F3.SkelTie.SkelStore.skelStorePut_expected, F3.SkelTie.SkelStore.skelStoreGetRange_expected, F3.SkelTie.SkelStore.skelStoreOpen_expected, F3.SkelTie.SkelStore.skelExportSnapshot_expected⟩
+    F3.Gen.SkelStore.skelExportSnapshot = F3.SkelTie.SkelStore.skelExportSnapshotExpected ∧
+    F3.Gen.SkelStore.skelReadSnapshotBlock = F3.SkelTie.SkelStore.skelReadSnapshotBlockExpected ∧
+    F3.Gen.SkelStore.skelImportSnapshot = F3.SkelTie.SkelStore.skelImportSnapshotExpected :=
+  ⟨F3.SkelTie.SkelStore.skelStorePut_expected, F3.SkelTie.SkelStore.skelStoreGetRange_expected, F3.SkelTie.SkelStore.skelStoreOpen_expected, F3.SkelTie.SkelStore.skelExportSnapshot_expected, F3.SkelTie.SkelStore.skelReadSnapshotBlock_expected, F3.SkelTie.SkelStore.skelImportSnapshot_expected⟩
 
 end Skeletons
 end F3.Props.C09
